@@ -42,63 +42,72 @@ fn ensure_crate(ctx: &Ctx, dir: &PathBuf) {
 /// Err(text) = the oracle itself failed (rustc rejected a generated program): a harness error.
 pub fn run(ctx: &Ctx, name: &str, programs: &[OracleProgram], crates: usize) -> Result<OracleOut, String> {
     let start = std::time::Instant::now();
-    let crates = crates.max(1).min(programs.len().max(1));
-    let per = (programs.len() + crates - 1) / crates;
+    // memory bound: one rustc over ~1 250 derive-heavy modules needs > 5 GB, sixteen of them at once were OOM-killed
+    // on a loaded machine. Programs go into chunks of <= 250 modules; at most 8 workers build at a time, each reusing
+    // its own cargo project; a build killed by a signal is retried (twice) before it counts as an oracle failure.
+    let per = 250usize;
+    let n_chunks = (programs.len() + per - 1) / per;
+    let workers = crates.max(1).min(8).min(n_chunks.max(1));
+    let crates = n_chunks;
     let results: Vec<Result<Vec<(usize, String, String)>, String>> = std::thread::scope(|s| {
         let mut hs = vec![];
-        for k in 0..crates {
-            let lo = k * per;
-            let hi = ((k + 1) * per).min(programs.len());
-            if lo >= hi {
-                continue;
-            }
-            let slice = &programs[lo..hi];
+        for k in 0..workers {
             hs.push(s.spawn(move || -> Result<Vec<(usize, String, String)>, String> {
+                let mut out = vec![];
                 let dir = crate_dir(ctx, name, k);
                 ensure_crate(ctx, &dir);
-                let mut src = String::from("#![allow(dead_code, unused_imports, non_snake_case, non_camel_case_types, unused_variables, non_upper_case_globals)]\n");
-                for (i, p) in slice.iter().enumerate() {
-                    src.push_str(&format!("mod p{} {{\n    use serde::Serialize;\n    use std::collections::HashMap;\n", lo + i));
-                    src.push_str(&p.module_src);
-                    src.push_str("\n}\n");
-                }
-                src.push_str("fn main() {\n    use std::io::Write;\n    let out = std::io::stdout();\n    let mut out = std::io::BufWriter::new(out.lock());\n");
-                for (i, p) in slice.iter().enumerate() {
-                    src.push_str(&format!("    {{\n        use p{}::*;\n", lo + i));
-                    for (label, expr) in &p.values {
-                        src.push_str(&format!(
-                            "        writeln!(out, \"{}\\t{}\\t{{}}\", serde_json::to_string(&{}).unwrap()).unwrap();\n",
-                            lo + i,
-                            label.replace('\\', "\\\\").replace('"', "\\\"").replace('{', "{{").replace('}', "}}"),
-                            expr
-                        ))
-                        ;
+                let mut chunk = k;
+                while chunk < n_chunks {
+                    let lo = chunk * per;
+                    let hi = ((chunk + 1) * per).min(programs.len());
+                    chunk += workers;
+                    let slice = &programs[lo..hi];
+                    let mut src = String::from("#![allow(dead_code, unused_imports, non_snake_case, non_camel_case_types, unused_variables, non_upper_case_globals)]\n");
+                    for (i, p) in slice.iter().enumerate() {
+                        src.push_str(&format!("mod p{} {{\n    use serde::Serialize;\n    use std::collections::HashMap;\n", lo + i));
+                        src.push_str(&p.module_src);
+                        src.push_str("\n}\n");
                     }
-                    src.push_str("    }\n");
-                }
-                src.push_str("}\n");
-                std::fs::write(dir.join("src/main.rs"), &src).map_err(|e| e.to_string())?;
-                let b = Command::new("cargo")
-                    .args(["build", "--offline", "--quiet"])
-                    .current_dir(&dir)
-                    .env("CARGO_TARGET_DIR", ctx.build.join(format!("oracle-target-{}", ctx.tag)).join(format!("{name}-{k}")))
-                    .env_remove("RUSTFLAGS")
-                    .output()
-                    .map_err(|e| e.to_string())?;
-                if !b.status.success() {
-                    let err = String::from_utf8_lossy(&b.stderr);
-                    return Err(format!("oracle crate {k} failed to build:\n{}", err.chars().take(3000).collect::<String>()));
-                }
-                let exe = ctx.build.join(format!("oracle-target-{}", ctx.tag)).join(format!("{name}-{k}")).join("debug/serde_oracle");
-                let r = Command::new(&exe).output().map_err(|e| e.to_string())?;
-                if !r.status.success() {
-                    return Err(format!("oracle binary {k} failed: {}", String::from_utf8_lossy(&r.stderr)));
-                }
-                let mut out = vec![];
-                for line in String::from_utf8_lossy(&r.stdout).lines() {
-                    let mut it = line.splitn(3, '\t');
-                    let (Some(a), Some(b), Some(c)) = (it.next(), it.next(), it.next()) else { continue };
-                    out.push((a.parse::<usize>().unwrap_or(usize::MAX), b.to_string(), c.to_string()));
+                    src.push_str("fn main() {\n    use std::io::Write;\n    let out = std::io::stdout();\n    let mut out = std::io::BufWriter::new(out.lock());\n");
+                    for (i, p) in slice.iter().enumerate() {
+                        src.push_str(&format!("    {{\n        use p{}::*;\n", lo + i));
+                        for (label, expr) in &p.values {
+                            src.push_str(&format!(
+                                "        writeln!(out, \"{}\\t{}\\t{{}}\", serde_json::to_string(&{}).unwrap()).unwrap();\n",
+                                lo + i,
+                                label.replace('\\', "\\\\").replace('"', "\\\"").replace('{', "{{").replace('}', "}}"),
+                                expr
+                            ));
+                        }
+                        src.push_str("    }\n");
+                    }
+                    src.push_str("}\n");
+                    std::fs::write(dir.join("src/main.rs"), &src).map_err(|e| e.to_string())?;
+                    let target = ctx.build.join(format!("oracle-target-{}", ctx.tag)).join(format!("{name}-{k}"));
+                    let mut attempt = 0;
+                    loop {
+                        let b = Command::new("cargo").args(["build", "--offline", "--quiet"]).current_dir(&dir).env("CARGO_TARGET_DIR", &target).env_remove("RUSTFLAGS").output().map_err(|e| e.to_string())?;
+                        if b.status.success() {
+                            break;
+                        }
+                        let err = String::from_utf8_lossy(&b.stderr).into_owned();
+                        attempt += 1;
+                        if err.contains("signal:") && attempt <= 2 {
+                            std::thread::sleep(std::time::Duration::from_secs(10 * attempt));
+                            continue;
+                        }
+                        return Err(format!("oracle crate {k} (programs {lo}..{hi}) failed to build:\n{}", err.chars().take(3000).collect::<String>()));
+                    }
+                    let exe = target.join("debug/serde_oracle");
+                    let r = Command::new(&exe).output().map_err(|e| e.to_string())?;
+                    if !r.status.success() {
+                        return Err(format!("oracle binary {k} failed: {}", String::from_utf8_lossy(&r.stderr)));
+                    }
+                    for line in String::from_utf8_lossy(&r.stdout).lines() {
+                        let mut it = line.splitn(3, '\t');
+                        let (Some(a), Some(b), Some(c)) = (it.next(), it.next(), it.next()) else { continue };
+                        out.push((a.parse::<usize>().unwrap_or(usize::MAX), b.to_string(), c.to_string()));
+                    }
                 }
                 Ok(out)
             }));
